@@ -3071,6 +3071,12 @@ ADFI_count_total_array_points( node.number_of_dimensions,
 			       error_return ) ;
 CHECK_ADF_ABORT( *error_return ) ;
 
+	/** the rank of the memory array is checked before it is used **/
+if( (m_num_dims < 1) || (m_num_dims > ADF_MAX_DIMENSIONS) ) {
+   *error_return = BAD_NUMBER_OF_DIMENSIONS ;
+   CHECK_ADF_ABORT( *error_return ) ;
+   } /* end if */
+
 for (i = 0; i < m_num_dims; i++)
    memory_dims[i] = m_dims[i];
 
@@ -4062,6 +4068,12 @@ ADFI_count_total_array_points( node.number_of_dimensions,
 			       &total_disk_elements, &disk_offset,
 			       error_return ) ;
 CHECK_ADF_ABORT( *error_return ) ;
+
+	/** the rank of the memory array is checked before it is used **/
+if( (m_num_dims < 1) || (m_num_dims > ADF_MAX_DIMENSIONS) ) {
+   *error_return = BAD_NUMBER_OF_DIMENSIONS ;
+   CHECK_ADF_ABORT( *error_return ) ;
+   } /* end if */
 
 for (i = 0; i < m_num_dims; i++)
    memory_dims[i] = m_dims[i];
